@@ -216,19 +216,24 @@ Qed.
 
 (* ---- created: release, and the constructor returns *)
 Lemma case_K181r : forall s t, Inv s -> t < s_n s -> t_pc (s_thr s t) = K181r ->
-  Inv (put_thr (with_lock s None) t
+  Inv (put_thr (with_lock (with_heap s (set_obj_init (s_heap s) (self_of (s_thr s t))) (s_nextobj s)) None) t
          (finish (s_thr s t)
             (match t_val (s_thr s t) with
              | Some o => RObj o (t_id (s_thr s t)) (t_ep (s_thr s t)) | None => RNone end))).
 Proof.
   intros s t Hinv Ht Hpc.
   assert (X : t_exc (s_thr s t) = None) by (apply exc_none; try assumption; rewrite Hpc; discriminate).
+  assert (Hh : forall o, o_key (set_obj_init (s_heap s) (self_of (s_thr s t)) o) = o_key (s_heap s o) /\
+                         o_wlock (set_obj_init (s_heap s) (self_of (s_thr s t)) o) = o_wlock (s_heap s o)).
+  { intros o. unfold set_obj_init, upd. destruct (Nat.eqb o (self_of (s_thr s t))) eqn:E;
+      [apply Nat.eqb_eq in E; subst |]; split; reflexivity. }
   eapply inv_finish with (s := s) (t := t); try reflexivity; try assumption;
-    try (match goal with |- xwinpc _ = false => first [rewrite Hpc; reflexivity | destruct Hpc as [-> | ->]; reflexivity] end).
-  - intros o1 _. reflexivity.
+    try (match goal with |- xwinpc _ = false => rewrite Hpc; reflexivity end).
+  - intros o1 _. simpl. apply Hh.
   - apply lc_release; [now rewrite Hpc | reflexivity | reflexivity].
-  - apply wc_same; [reflexivity |]. intros o1 _. unfold wl. simpl. rewrite Hpc. simpl.
+  - apply wc_same; [intros o1 _; simpl; apply Hh |]. intros o1 _. unfold wl. simpl. rewrite Hpc. simpl.
     split; intros (A & _); discriminate.
+  - intros o1 _. simpl. apply Hh.
   - unfold mov_of. now rewrite Hpc.
   - destruct (t_val (s_thr s t)) as [o |] eqn:V; [| exact I].
     split; [destruct (inv_w_thr s Hinv t Ht) as (Rv & _); now apply Rv |].
@@ -295,7 +300,7 @@ Qed.
 (* ---- _SO_finishCreate: the INSERT *)
 Lemma case_C1397 : forall s t, Inv s -> t < s_n s -> t_pc (s_thr s t) = C1397 ->
   Inv (put_thr (with_heap (with_rows s (s_rows s ++ [s_nextid s]) (s_nextid s + 1)%Z)
-                  (upd (s_heap s) (s_nextobj s) (fresh_obj (s_nextid s))) (S (s_nextobj s))) t
+                  (upd (s_heap s) (s_nextobj s) (fresh_obj_uninit (s_nextid s))) (S (s_nextobj s))) t
          (set_pc (set_self (set_id (s_thr s t) (s_nextid s)) (Some (s_nextobj s))) C1400)).
 Proof.
   intros s t Hinv Ht Hpc.
@@ -1279,10 +1284,11 @@ Proof.
   | _ = C1397 => unfold goto in Hstep; inversion Hstep; subst; now apply case_C1397
   | _ = K181 => unfold goto in Hstep; inversion Hstep; subst; apply case_K181; try assumption; now apply negb_true_iff
   | _ = K181r =>
-    unfold release in Hstep;
+    unfold release in Hstep; simpl in Hstep;
     assert (L : s_lock s = Some t) by (apply (inv_lock s Hinv t Hlt); rewrite Hpc; reflexivity);
     rewrite L in Hstep; inversion Hstep; subst; now apply case_K181r
   | _ = X1072 =>
+    rewrite Hg in Hstep; simpl in Hstep;
     destruct (o_wlock (s_heap s (self_of (s_thr s t)))) eqn:W; [discriminate |];
     unfold goto in Hstep; inversion Hstep; subst; now apply case_X1072
   | _ = X1078 => unfold goto in Hstep; inversion Hstep; subst; now apply case_X1078
